@@ -18,7 +18,10 @@ ALLOWED_AXIOMS = {
 }
 
 # theorems outside Props/<id>.v that count as obligations of a property: (module, name)
-FACT_THEOREMS = {}
+FACT_THEOREMS = {
+    # the effect table (every use of expr.q is .Clone(); every Clone deep-copies) is an obligation of C04 as well
+    'C04': [('XP.Props.C05', 'C05_effects_table_ok')],
+}
 
 TRUSTED_BASE = [
     'Coq 8.16.1 kernel (coqc, full .vo build); vm_compute is used in the finite fact proofs; no native_compute',
